@@ -1,6 +1,6 @@
 import SqlObjVerif.Lemmas.Expr
 import SqlObjVerif.Lemmas.ExprXTop
-import SqlObjVerif.Lemmas.SelXTables
+import SqlObjVerif.Lemmas.SelXRepr
 /-!
 # C03 — query expressions mean what was built (property theorems only)
 
@@ -603,5 +603,53 @@ theorem C03_translated_tablesUsed_eq_model (P : ExprX.Params) (Q : ParamsQ) (h :
 example (P : ExprX.Params) :
     tuV P (.sqlin (.field 0) (.lcons (.field 1) .lnil)) = setV [.str (P.table 0)] := by
   simp [tuV, ExprX.isObjNode, tablesL, setUnion, setAdd]
+
+
+/-! ### `Select.__sqlrepr__` (translated in full; proved statement by statement — PARTIAL: the loops that collect the
+table set from `staticTables` / the items / the joins, GROUP BY, HAVING, ORDER BY and the LIMIT hand-off are translated
+but their composition is not proved) -/
+
+/-- `_str_or_sqlrepr(expr, db)`: a `str` is passed through, anything else is `sqlrepr(expr, db)` -/
+theorem C03_translated_str_or_sqlrepr_eq_model (I : SIface) (h : Heap) (v db : Val) :
+    runP I f_str_or_sqlrepr [v, db] h =
+      if (I.E h).isSub (typeName v) "str" then .ok v else (I.E h).call "sqlrepr" [v, db] :=
+  str_or_sqlrepr_spec I h v db
+
+/-- the WHERE statement: ` WHERE <rendering of the clause>` is appended to the text so far (nothing for `NoDefault`) —
+    with `C03_translated_sqlrepr_eq_model` the rendering of a clause node is the hand model's text -/
+theorem C03_translated_Select_sqlrepr_where (I : SIface) (s : St) (p : Nat) (d : Dict) (c db : Val) (sel t : Str)
+    (h0 : s.env 0 = some (selObj p)) (h1 : s.env 1 = some db) (h2 : s.env 2 = some (.str sel))
+    (hp : s.heap.cells p = some d) (hc : aget k_clause d = some c)
+    (ht : (I.E s.heap).call "_str_or_sqlrepr" [c, db] = .ok (.str t)) :
+    PySel.Stmt.exec I s Select_sqlrepr_s16 =
+      .norm (if typeName c == "@NoDefault" then s else s.put 2 (.str (sel ++ ([32, 87, 72, 69, 82, 69, 32] ++ t)))) :=
+  sqlrepr_where I s p d c db sel t h0 h1 h2 hp hc ht
+
+/-- the item list: ` ` + the items' renderings joined by `, ` -/
+theorem C03_translated_Select_sqlrepr_items (I : SIface) (s : St) (p : Nat) (d : Dict) (db : Val) (vs : List Val)
+    (ts : List Str) (sel : Str) (h0 : s.env 0 = some (selObj p)) (h1 : s.env 1 = some db)
+    (h2 : s.env 2 = some (.str sel)) (hp : s.heap.cells p = some d) (hl : aget k_lazyColumns d = some (.bool false))
+    (hi : aget k_items d = some (.list vs))
+    (ht : ExprX.AllR (fun v t => (I.E s.heap).call "_str_or_sqlrepr" [v, db] = .ok (.str t)) vs ts) :
+    PySel.Stmt.exec I s Select_sqlrepr_s2 = .norm (s.put 2 (.str (sel ++ (32 :: joinStr [44, 32] ts)))) :=
+  sqlrepr_items I s p d db vs ts sel h0 h1 h2 hp hl hi ht
+
+/-- FROM without joins: the collected table set, sorted, joined by `, ` (no FROM for an empty set); DISTINCT; FOR UPDATE -/
+theorem C03_translated_Select_sqlrepr_from (I : SIface) (s : St) (ts : List Str) (sel : Str)
+    (h2 : s.env 2 = some (.str sel)) (h7 : s.env 7 = some (setV (ts.map .str))) (h4 : s.env 4 = some (.list [])) :
+    PySel.Stmt.exec I s Select_sqlrepr_s12 =
+      .norm (if ts.isEmpty then s else
+        s.put 2 (.str (sel ++ ([32, 70, 82, 79, 77, 32] ++ joinStr [44, 32] (sortS I.strLe ts))))) :=
+  sqlrepr_from I s ts sel h2 h7 h4
+
+theorem C03_translated_Select_sqlrepr_distinct_forUpdate (I : SIface) (s : St) (p : Nat) (d : Dict) (b : Bool)
+    (sel : Str) (h0 : s.env 0 = some (selObj p)) (h2 : s.env 2 = some (.str sel)) (hp : s.heap.cells p = some d) :
+    (aget k_distinct d = some (.bool b) → aget k_distinctOn d = some noDefault →
+      PySel.Stmt.exec I s Select_sqlrepr_s1 =
+        .norm (if b then s.put 2 (.str (sel ++ [32, 68, 73, 83, 84, 73, 78, 67, 84])) else s)) ∧
+    (aget k_forUpdate d = some (.bool b) →
+      PySel.Stmt.exec I s Select_sqlrepr_s23 =
+        .norm (if b then s.put 2 (.str (sel ++ [32, 70, 79, 82, 32, 85, 80, 68, 65, 84, 69])) else s)) :=
+  ⟨fun hc hon => sqlrepr_distinct I s p d b sel h0 h2 hp hc hon, fun hc => sqlrepr_forUpdate I s p d b sel h0 h2 hp hc⟩
 
 end SqlObjVerif.SelX
